@@ -10,6 +10,40 @@ RUN = r'^rip_tools::runtime::ToolRunner::run$'
 MAXC = 'DEFAULT_MAX_TOOL_CALLS'
 
 
+def counted_every_iteration(P):
+    """every iteration of the per-call loop of the agent loop that comes back to the loop head passed the
+    increment of the bounded call counter: a call that is answered without being counted (refused by
+    tool_choice, invalid arguments, ...) lets a provider that keeps sending such calls drive the run for ever."""
+    f = P.body(LOOP)
+    runs = f.calls(RUN)
+    cands = set()
+    for (bi, on, ts, els) in switches(f):
+        o = f.origin(on)
+        if o[0] == 'rv' and o[1]['k'] == 'bin' and o[1]['op'] in ('Ge', 'Gt', 'Lt', 'Le'):
+            a, b = o[1]['a']
+            kb = op_const(b)
+            if kb is not None and str(kb.get('def', '')).endswith(MAXC) and f.root_local(a) is not None:
+                cands.add(f.root_local(a))
+    if len(cands) != 1 or not runs:
+        return False, 'the bounded call counter of the agent loop was not identified', f.line
+    cnt = next(iter(cands))
+    incs = []
+    for bi in f.reachable():
+        for st in f.blocks[bi]['s']:
+            rv = st.get('rv')
+            if rv and rv['k'] == 'bin' and rv['op'].startswith('Add') and f.root_local(rv['a'][0]) == cnt:
+                incs.append(bi)
+    h = f.innermost_loop(runs[0].bb)
+    if h is None or not incs:
+        return False, 'no per-call loop / no increment of `%s`' % f.lname(cnt), f.line
+    body = f.loops()[h]
+    succ_in = [s_ for s_ in f.succs(h) if s_ in body]
+    r = f.reach(succ_in, stop=incs)
+    back = any(h in f.succs(b) for b in r if b in body and b not in incs)
+    return (not back, 'every iteration of the per-call loop %s the increment of `%s`' % ('passes' if not back else 'can come back to the loop head WITHOUT', f.lname(cnt))
+            + ('' if not back else ': calls that are answered but not counted never reach the bound, the run need not end'), f.blocks[incs[0]]['s'][0].get('ln', f.line) if f.blocks[incs[0]]['s'] else f.line)
+
+
 def run(ctx):
     P = ctx.prog
     ctx.not_decided = 'provider scripts with duplicate call ids, calls arriving after a [DONE]-less termination (collector semantics are value level); ordering by output_index.'
@@ -59,6 +93,8 @@ def run(ctx):
         ctx.ob('C16.1', f, 'bounded-run', ok, 'tool run is %s' % ('reachable only below the bound, tested in the same per-call loop' if ok else 'reachable WITHOUT the per-call bound test'), line=r.line)
         ok2 = len([i for i in incs if f.dom(i[0], r.bb) and f.innermost_loop(i[0]) == inner and i[2] == '1']) == 1
         ctx.ob('C16.1', f, 'counted-run', ok2, 'exactly one `tool_call_count += 1` dominates the run inside the per-call loop', line=r.line)
+    okit, whyit, lnit = counted_every_iteration(P)
+    ctx.ob('C16.1', f, 'counted-every-iteration', okit, whyit, line=lnit)
     ctx.ob('C16.1', f, 'single-increment', len(incs) == 1, 'tool_call_count is incremented at %d site(s)' % len(incs), line=incs[0][1] if incs else f.line)
     mt = P.callers(r'::max_tool_calls$')
     mt = [s for s in mt if s.fn.crate == 'ripd']
